@@ -2,7 +2,7 @@
 From Coq Require Extraction.
 From Coq Require Import ExtrOcamlBasic.
 From SQ Require Import lib.Base.
-From SQ Require model.Rtt model.Loss model.Pto model.Recovery.
+From SQ Require model.Rtt model.Loss model.Pto model.Recovery model.PcComp.
 Extraction Language OCaml.
 
 Definition loss_run := Loss.run.
@@ -11,7 +11,9 @@ Definition rtt_run := Rtt.run.
 Definition rtt_judge := Rtt.judge.
 Definition pto_run := Pto.run.
 Definition pto_judge := Pto.judge.
+Definition pc_run := PcComp.run.
+Definition pc_judge := PcComp.judge.
 Definition manager_run := Recovery.run.
 Definition manager_judge := Recovery.judge.
 Definition manager_tol_judge := Recovery.judge_tol.
-Extraction "../ocaml/gen/C09/model.ml" loss_run loss_judge rtt_run rtt_judge pto_run pto_judge manager_run manager_judge manager_tol_judge.
+Extraction "../ocaml/gen/C09/model.ml" loss_run loss_judge rtt_run rtt_judge pto_run pto_judge pc_run pc_judge manager_run manager_judge manager_tol_judge.
